@@ -1,5 +1,6 @@
 import PrimitivModel.Lemmas.ArithIndex
 import PrimitivModel.Props.C02.Arith
+import PrimitivModel.Props.C11.Arith
 /-
 C03 (minibatch law), arithmetic kernels.
 
@@ -121,19 +122,66 @@ theorem incompatible_batch_rejected {α : Type} (op : α → α → α) (a b : T
   rfl
 example : (2 : Nat) ≠ 3 ∧ (2 : Nat) ≠ 1 ∧ (3 : Nat) ≠ 1 := by decide
 
-/-- conv2d: sample `bn` of the batched result is conv2d of the samples (follows from `conv2d_spec` the way
-`matmul_fwd_law` follows from `matmul_spec`); stated, not proved. -/
-def conv2d_batch_law_full : Prop :=
-  ∀ (D : ConvDims) (x w : Buf ℚ) (junk : ℚ), D.yShift = D.yc * (D.yw * D.yh) →
-    ∀ s ∈ D.outer, conv2dFw 0 D x w junk (C02.Arith.convCell D s)
-      = conv2dFw 0 { D with bs := 1, xShift := 0, wShift := 0 } (sample D.xShift s.1 x) (sample D.wShift s.1 w) junk
-          (C02.Arith.convCell { D with bs := 1 } (0, s.2))
+section conv2d
+variable {α : Type} [CommRing α]
 
-/-- max_pool2d treats the `channels × batch` planes independently: plane `r` of the result depends on plane `r`
-of x only; stated, not proved. -/
-def max_pool2d_batch_law_full : Prop :=
-  ∀ (D : PoolDims) (x x' : Buf ℚ) (lowest junk : ℚ) (t : Nat × Nat × Nat), t ∈ D.outer →
-    (∀ a < D.xh * D.xw, x (D.xbase t + a) = x' (D.xbase t + a)) →
-    maxPoolFw lowest D x junk (D.ya t) = maxPoolFw lowest D x' junk (D.ya t)
+/-- conv2d: sample `bn` of the batched result is conv2d of the bn-th samples of the operands, for both operands
+and both patterns each (`xShift`, `wShift` ∈ {0, volume}: a batch-1 `x` or `w` is shared by all samples). -/
+theorem conv2d_batch_law (D : ConvDims) (x w : Buf α) (junk : α) (hY : D.yShift = D.yc * (D.yw * D.yh))
+    {s : Nat × Nat × Nat × Nat} (hs : s ∈ D.outer) :
+    sample D.yShift s.1 (conv2dFw 0 D x w junk) ((s.2.1 * D.yw + s.2.2.1) * D.yh + s.2.2.2)
+      = conv2dFw 0 { D with bs := 1, xShift := 0, wShift := 0 } (sample D.xShift s.1 x) (sample D.wShift s.1 w) junk
+          (C02.Arith.convCell { D with bs := 1, xShift := 0, wShift := 0 } (0, s.2)) := by
+  have hs4 := mem_range4.mp hs
+  have hs' : ((0, s.2) : Nat × Nat × Nat × Nat) ∈ ({ D with bs := 1, xShift := 0, wShift := 0 } : ConvDims).outer :=
+    mem_range4.mpr ⟨Nat.zero_lt_one, hs4.2.1, hs4.2.2.1, hs4.2.2.2⟩
+  have h1 := C02.Arith.conv2d_spec D x w junk hY hs
+  have h2 := C02.Arith.conv2d_spec { D with bs := 1, xShift := 0, wShift := 0 } (sample D.xShift s.1 x)
+    (sample D.wShift s.1 w) junk hY hs'
+  show conv2dFw 0 D x w junk (C02.Arith.convCell D s) = _
+  rw [h1, h2]
+  apply congrArg List.sum
+  apply List.map_congr_left
+  intro r _
+  simp [ConvDims.valid, ConvDims.posY, ConvDims.posX, ConvDims.xa, ConvDims.wa, sample]
+  rfl
+example : ((1, 0, 1, 1) : Nat × Nat × Nat × Nat) ∈
+    (⟨3, 3, 1, 2, 2, 2, 2, 1, 2, 9, 0, 4, 0, 0, 1, 1, 1, 1⟩ : ConvDims).outer := by decide
+
+end conv2d
+
+section pool
+variable {α : Type} [LinearOrder α]
+
+/-- max_pool2d treats the `channels × batch` planes independently: plane `r` of the result is max_pool2d of
+plane `r` of x (in particular sample b of the batched result is the kernel on sample b). -/
+theorem max_pool2d_batch_law (lowest : α) (D : PoolDims) (x : Buf α) (junk : α) {t : Nat × Nat × Nat}
+    (ht : t ∈ D.outer) :
+    sample (D.yh * D.yw) t.1 (maxPoolFw lowest D x junk) (t.2.1 * D.yh + t.2.2)
+      = maxPoolFw lowest { D with rep := 1 } (sample (D.xh * D.xw) t.1 x) junk
+          (({ D with rep := 1 } : PoolDims).ya (0, t.2)) := by
+  have ht3 := mem_range3.mp ht
+  have ht' : ((0, t.2) : Nat × Nat × Nat) ∈ ({ D with rep := 1 } : PoolDims).outer :=
+    mem_range3.mpr ⟨Nat.zero_lt_one, ht3.2.1, ht3.2.2⟩
+  show maxPoolFw lowest D x junk (D.ya t) = _
+  rw [C02.Arith.max_pool2d_cell lowest D x junk ht,
+    C02.Arith.max_pool2d_cell lowest { D with rep := 1 } (sample (D.xh * D.xw) t.1 x) junk ht']
+  congr 1
+  apply List.map_congr_left
+  intro a _
+  simp [sample, PoolDims.xbase]
+
+/-- …and depends on that plane only -/
+theorem max_pool2d_plane_local (lowest : α) (D : PoolDims) (x x' : Buf α) (junk : α) {t : Nat × Nat × Nat}
+    (ht : t ∈ D.outer) (h : ∀ a < D.xh * D.xw, x (D.xbase t + a) = x' (D.xbase t + a)) :
+    maxPoolFw lowest D x junk (D.ya t) = maxPoolFw lowest D x' junk (D.ya t) := by
+  rw [C02.Arith.max_pool2d_cell lowest D x junk ht, C02.Arith.max_pool2d_cell lowest D x' junk ht]
+  congr 1
+  apply List.map_congr_left
+  intro a ha
+  exact h a (by rw [Nat.mul_comm]; exact C11.Arith.MaxPool.window_in_bounds D _ _ a ha)
+example : ((1, 0, 0) : Nat × Nat × Nat) ∈ (⟨2, 2, 1, 1, 2, 2, 2, 0, 0, 1, 1⟩ : PoolDims).outer := by decide
+
+end pool
 
 end Primitiv.C03.Arith
